@@ -16,6 +16,7 @@ import (
 	"github.com/dave/dst/decorator/resolver/goast"
 	"github.com/dave/dst/decorator/resolver/gotypes"
 	"github.com/dave/dst/decorator/resolver/simple"
+	"golang.org/x/tools/go/packages"
 
 	"verif/internal/corpus"
 	"verif/internal/fw"
@@ -258,6 +259,18 @@ func runC09(c *fw.Ctx) {
 					}
 					if !resolveLocal {
 						c09Goast(c, label, p.Fset, af, info, tpaths, importNamesOf(af, info), p.Files[k].Src)
+						// the decorator that Load builds for a loaded package: go/packages gives the test
+						// variant of a package an ID that differs from its import path
+						pid := []string{pkgPath, pkgPath + " [" + pkgPath + ".test]", "file=" + p.Files[k].Name}[(i+k)%3]
+						lp := &packages.Package{ID: pid, Name: pkg.Name(), PkgPath: pkgPath, Fset: p.Fset, Syntax: files, Types: pkg, TypesInfo: info}
+						d2 := decorator.NewDecoratorFromPackage(lp)
+						df2, err := d2.DecorateFile(af)
+						if err != nil {
+							c.Violate("decorate-error", "decorate-error:from-package", id+": "+err.Error(), p.Files[k].Src)
+							continue
+						}
+						c.Count("files:from-package", 1)
+						c09CheckFile(c, label+"/NewDecoratorFromPackage(ID="+[]string{"path", "test-variant", "other"}[(i+k)%3]+")", d2, af, df2, info, pkg, false, p.Files[k].Src)
 					}
 				}
 			}
